@@ -52,6 +52,22 @@ pub fn simplify_predicates(predicates: Vec<Expr>) -> Result<Vec<Expr>> {
     let mut other_predicates = Vec::new();
 
     for pred in predicates {
+        // Normalise `literal op column` to `column op' literal`: the code below compares
+        // equality predicates structurally and breaks ties on the operator as written.
+        let pred = match pred {
+            Expr::BinaryExpr(BinaryExpr { left, op, right })
+                if left.as_literal().is_some()
+                    && extract_column_from_expr(&right).is_some()
+                    && op.swap().is_some() =>
+            {
+                Expr::BinaryExpr(BinaryExpr {
+                    left: right,
+                    op: op.swap().unwrap(),
+                    right: left,
+                })
+            }
+            other => other,
+        };
         match &pred {
             Expr::BinaryExpr(BinaryExpr {
                 left,
